@@ -500,6 +500,43 @@ fn match_case(rt: &Runtime<NoCtx>, drv: &mut Driver, seed: u64, index: u64, rep:
     rep.hist("match-table", real_cat);
 }
 
+// ------------------------------------------------------------ corpus
+
+/// `corpus/C07/*.reject.roto` must be rejected with a type error report,
+/// `*.accept.roto` must compile: the minimal witnesses of the defects found
+/// so far and their well-typed neighbours. Replayed first on every run.
+fn corpus_files() -> Vec<std::path::PathBuf> {
+    let dir = std::env::var("C07_CORPUS").map(std::path::PathBuf::from).unwrap_or_else(|_| std::path::PathBuf::from("corpus/C07"));
+    let mut v: Vec<_> = std::fs::read_dir(&dir)
+        .map(|d| d.filter_map(|e| e.ok()).map(|e| e.path()).filter(|p| p.extension().map(|x| x == "roto").unwrap_or(false)).collect())
+        .unwrap_or_default();
+    v.sort();
+    v
+}
+
+fn corpus_case(rt: &Runtime<NoCtx>, index: u64, rep: &mut Report) {
+    let files = corpus_files();
+    let Some(path) = files.get(index as usize) else { return };
+    let name = path.file_name().unwrap().to_string_lossy().to_string();
+    let src = std::fs::read_to_string(path).unwrap_or_default();
+    let must_reject = name.ends_with(".reject.roto");
+    let real = compile(rt, &src, true);
+    rep.evaluations += 1;
+    let input = json!({"corpus": name, "src": src, "expect": if must_reject { "type-error" } else { "compiles" }});
+    match (&real, must_reject) {
+        (Outcome::TypeError(line), true) => rep.class(format!("corpus:{name}:{}", error_category(line))),
+        (Outcome::Ok, false) => rep.class(format!("corpus:{name}:compiles")),
+        (Outcome::Ok, true) => rep.violation("an ill-typed script of the corpus compiled", &format!("accepted:corpus:{name}"), input),
+        (Outcome::Panic(msg), true) => rep.violation(
+            &format!("an ill-typed script of the corpus made the compiler panic: {msg}"),
+            &format!("panic:corpus:{name}"),
+            input,
+        ),
+        (other, _) => rep.mismatch(&format!("corpus script `{name}`: {other:?}"), input),
+    }
+    rep.hist("corpus", if must_reject { "must be rejected" } else { "must compile" });
+}
+
 // ------------------------------------------------------------ assignment targets
 
 /// the context of the scripts of the assignment-target table
@@ -1241,6 +1278,7 @@ fn worker(args: &[String]) {
             "unify" => unify_case(&mut drv, seed, i, &mut rep),
             "lit" => lit_case(&rt, &mut drv, seed, i, &mut rep),
             "assign" => assign_case(&mut drv, i, &mut rep),
+            "corpus" => corpus_case(&rt, i, &mut rep),
             "rec" => rec_case(&rt, &mut drv, seed, i, &mut rep),
             "gen" => gen_case(&rt, &mut drv, seed, i, &mut rep),
             "decl" => decl_case(&rt, &mut drv, seed, i, &mut rep),
@@ -1377,6 +1415,8 @@ fn main() {
             let recs = env_n("C07_REC", pick(6_000, 20_000, 150_000));
             let jobs = env_n("C07_JOBS", 4);
             let mut rep = Report::default();
+            run_phase("corpus", seed, corpus_files().len() as u64, 64, 1, &mut rep);
+            rep.notes.push(format!("corpus: {} witnesses replayed first", corpus_files().len()));
             run_phase("ops", seed, ops_total(), 700, jobs, &mut rep);
             run_phase("assign", seed, assign_targets().len() as u64, 64, 1, &mut rep);
             run_phase("match", seed, matches, 500, jobs, &mut rep);
@@ -1450,6 +1490,15 @@ fn replay_one(input: &Value, rep: &mut Report) {
             if !d.starts_with("err") {
                 return;
             }
+        }
+        if let Some(name) = input["corpus"].as_str() {
+            rep.evaluations += 1;
+            match compile(&rt, src, true) {
+                Outcome::Ok => rep.violation("an ill-typed script of the corpus compiled", &format!("accepted:corpus:{name}"), input.clone()),
+                Outcome::Panic(msg) => rep.violation(&format!("an ill-typed script of the corpus made the compiler panic: {msg}"), &format!("panic:corpus:{name}"), input.clone()),
+                _ => {}
+            }
+            return;
         }
         if let Some(req) = input["rec"].as_str() {
             let mut drv = Driver::spawn().expect("lean driver");
